@@ -36,7 +36,7 @@ COLOURS = ["red", "0000FF", "blue", "12", "0", "1e3", "c_1", "Dark_Green", "ff88
 KEYS = ["color", "c", "x", "k1", "S", "B", "colour", "color "]
 READ_ALPHABET = "(),:;[]&=NHX ab1_.+-eE5\t\n"
 
-SAFE_WORD = re.compile(r"[A-Za-z0-9_]+\Z")
+SAFE_WORD = re.compile(r"[A-Za-z0-9_.\-]+\Z")
 ILLEGAL = set(":;(),[]\t\n\r=")
 
 
